@@ -194,6 +194,7 @@ func prop(c harness.Case) harness.Result {
 		case <-time.After(limit):
 			res.Err = fmt.Errorf("did not return within %v (watchdog, waited twice)", limit)
 			res.Nontrivial = true
+			res.NoShrink = true
 			return res
 		}
 	}
